@@ -213,6 +213,7 @@ def real_part(tier, pid, focus, verdict):
             results.append(ce)
             if ce['cheated']:
                 break
+        results.append(cycle_parallel_scenario(root, bindir))
         nc = nested_cheat_scenario(root, bindir)
         results.append(nc)
         n_cheat += 1 if nc['cheated'] else 0
@@ -445,6 +446,28 @@ def lockwait_batch_scenario(root, bindir):
     with open(os.path.join(d, 'scenario.json'), 'w') as f:
         json.dump({'scenario': res['sc'], 'files': files, 'commands': [r, rb], 'problems': probs,
                    'queued': res['queued'], 'waited': res['waited']}, f, indent=1)
+    return res
+
+
+def cycle_parallel_scenario(root, bindir):
+    """a dependency cycle discovered by a redo-ifchange that has already started two parallel jobs: the jobs must be
+    waited for and their tokens accounted for before the process leaves with the error (no abandonment)"""
+    d = os.path.join(root, 'cycle_parallel')
+    shutil.rmtree(d, ignore_errors=True)
+    p = os.path.join(d, 'p')
+    os.makedirs(p)
+    files = {'x.do': 'redo-ifchange y\necho x\n', 'y.do': 'redo-ifchange p q x\necho y\n',
+             'p.do': 'sleep 0.4\necho p\n', 'q.do': 'sleep 0.4\necho q\n'}
+    for n, t in files.items():
+        with open(os.path.join(p, n), 'w') as f:
+            f.write(t)
+    trace = os.path.join(d, 'trace.ndjson')
+    open(trace, 'w').close()
+    r = jobdrive.run_build(bindir, p, trace, ['redo', '-j3', 'x'], timeout=60, extra_env={'REDO_LOG': '0'})
+    probs = ['redo -j3 x: ' + x for x in jobdrive.classify(r, False)]
+    res = {'sc': {'id': 'cycle_parallel', 'j': 3, 'inherit': False}, 'dir': d, 'trace': trace, 'problems': probs, 'cmds': [r], 'pj': files}
+    with open(os.path.join(d, 'scenario.json'), 'w') as f:
+        json.dump({'scenario': res['sc'], 'files': files, 'commands': [r], 'problems': probs}, f, indent=1)
     return res
 
 
